@@ -2,6 +2,7 @@ package wasi_snapshot_preview1
 
 import (
 	"context"
+	"math"
 	"time"
 
 	"github.com/tetratelabs/wazero/api"
@@ -57,6 +58,12 @@ func pollOneoffFn(_ context.Context, mod api.Module, params []uint64) sys.Errno 
 
 	if nsubscriptions == 0 {
 		return sys.EINVAL
+	}
+
+	// The subscriptions cannot fit in a 32-bit address space: fail here, as
+	// otherwise nsubscriptions*48 below would wrap around.
+	if nsubscriptions > math.MaxUint32/48 {
+		return sys.EFAULT
 	}
 
 	mem := mod.Memory()
